@@ -332,6 +332,10 @@ def index_of(path_expr):
             ts = [y for y in walk(sub) if y[0] == "call" and y[1] == "alloc::string::ToString::to_string"]
             if ts:
                 return deep_strip(ts[0][2][0]), deep_strip(x[2][0]), deep_strip(x[2][1])
+            ds = deep_strip(sub)
+            if ds[0] != "const" and not any(y[0] == "const" and y[1] == "str" for y in walk(ds)):
+                # an expression that went through deep_strip already (to_string is a transparent conversion there)
+                return ds, deep_strip(x[2][0]), deep_strip(x[2][1])
     return None
 
 
@@ -447,6 +451,15 @@ def run_cfg(ctx, p, cfg):
                 nonconst = [e for b, e in defs if not (e[0] == "const" and e[1] == "bool")]
                 consts = [e[2] for b, e in defs if e[0] == "const" and e[1] == "bool"]
                 good = labs == {True} and len(nonconst) == 1 and all(cv is False for cv in consts)
+                if not good and labs == {True}:
+                    # the flag computed by a match / matches! / && chain: a conjunction of `parent() is Some` tests and one comparison
+                    cj = q.conjuncts(q.bool_value(rot, si.t["discr"]))
+                    if cj is not None:
+                        cmps = [x for x in cj if x[0] != "inset" and cmp_nf(x, True) is not None]
+                        rest = [x for x in cj if x not in cmps]
+                        if len(cmps) == 1 and all(x[0] == "inset" and x[2] == ("Some",) and any(y[0] == "call" and y[1] == "std::path::Path::parent" for y in walk(x[1])) for x in rest):
+                            nonconst = [cmps[0]]
+                            good = True
                 if good:
                     nf = cmp_nf(nonconst[0], True)
                     zipped = None
